@@ -112,6 +112,17 @@ CLAIMED = {
         technique="symbolic execution of the real union verb/Cache/compile functions on bounded-width tables with symbolic names + z3 (inductive step)",
         note="trusted: pdtv + z3; LazyFrame / SQL structural models; bound: widths <= 3 per side; column types fixed (type-compatibility refusal is covered by C13's lca_type enumeration)",
     ),
+    "C10": dict(
+        text="(proof, static) frame obligations on the real source ASTs of 90+ functions (all verbs, preprocess_arg, check_subquery, modify_ast, Cache.*, Table accessors, expression "
+        "constructors / rewriters, clone functions, backend compile functions): every attribute store, subscript store / delete, augmented assignment, mutating method call and call of a "
+        "callee with a modifies clause targets an object that is fresh in the activation (literal, comprehension, constructor, copy.copy shell with re-bound fields, callee result declared "
+        "fresh) or a path in the function's sidecar `modifies` clause; verbs return a fresh shell. (bounded, dynamic) in the inductive-step harness the deep fingerprint of the input tables "
+        "is unchanged by every verb on every symbolic path.",
+        design_ref="DESIGN.md §5.10",
+        technique="modular static frame/ownership analysis over the real ASTs with sidecar modifies-clauses; dynamic fingerprint check in the symbolic step harness",
+        note="trusted: the frame analysis is syntactic (aliases created by library calls or via fresh containers holding old objects are not tracked); callee effects come from the sidecar contracts; "
+        "memo writes (_dtype/_ftype) are permitted; mutation inside polars / SQLAlchemy objects is not decided",
+    ),
 }
 
 NOT_YET = "check not built yet (engine under construction); will be claimed as soon as its obligations discharge"
